@@ -11,7 +11,7 @@ from sa.report import Ctx
 
 from .common import generic_sweeps
 
-from .sat_common import SatRoles, _enclosing_block, check_add_sites, check_binary_add, check_binary_clear, check_assumption_assertion, check_analysis, check_assign, check_backtrack, check_bcp, check_input_copy, check_main_loop, check_heap_flags, check_variable_universe
+from .sat_common import SatRoles, _enclosing_block, check_add_sites, check_binary_add, check_binary_clear, check_assumption_assertion, check_analysis, check_assign, check_backtrack, check_bcp, check_input_copy, check_main_loop, check_heap_flags, check_variable_ranges, check_variable_universe
 
 EXPLANATION = (
     "Decides structural necessary conditions of 'every returned assignment satisfies every clause / agrees with "
@@ -39,6 +39,7 @@ def run(ctx: Ctx):
     ctx.step(check_model_record, roles)
     ctx.step(check_assumption_assertion, roles, "C01-O6")
     ctx.step(check_heap_flags, "C01-O7")
+    ctx.step(check_variable_ranges, "C01-O7")
     ctx.step(check_variable_universe, "C01-O8")
     ctx.step(check_assign, "C01-O9")
     ctx.step(check_bcp, "C01-O10")
@@ -379,7 +380,13 @@ def _v_clear_learned_by_literal(tree):
     g.body = M.stmts("for lst in (*self.pos, *self.neg):\n    lst[:] = [entry for entry in lst if entry[0] < original_count]")
 
 
+def _v_heap_without_last_variable(tree):
+    g = M.find_func(tree, "solve_sat")
+    M.replace_expr(g, lambda e: M.src_is(e, "[(-activity[v], v) for v in range(1, n_vars + 1)]"), M.expr("[(-activity[v], v) for v in range(1, n_vars)]"))
+
+
 VARIANTS = [
+    M.Variant("the decision heap starts without the highest-numbered variable (seed C01-Y)", "solvor/sat.py", _v_heap_without_last_variable, "C01-O7"),
     M.Variant("clear_learned filters the entries by their literal instead of their clause index (seed C01-U)", SAT, _v_clear_learned_by_literal, "C01-O11"),
     M.Variant("BinaryImplications.add drops every pair over one variable, [x, x] included (seed C01-O)", SAT, _v_binary_add_skips_same_variable, "C01-O3"),
     M.Variant("twin: BinaryImplications.add drops the tautology (x, -x) only", SAT, _t_binary_add_skips_tautology, None),
